@@ -314,6 +314,37 @@ def gen_safe(rng):
     return lead + steps[0] + "".join(a + b for a, b in zip(seps, steps[1:]))
 
 
+def results_after_edits(run: Run, stream, n):
+    """results objects are snapshots of nodes, document order belongs to the live tree: in_document_order() called again
+    on the same object after the tree was rearranged reflects the new order (and the node set is the same)"""
+    from delb import Document, TagNode, altered_default_filters
+
+    rng = run.rng
+    for _ in range(n):
+        xml = re.sub(r' xmlns(:p)?="[^"]*"', "", gendoc(rng)).replace("p:", "")
+        case = {"xml": xml, "what": "in_document_order after edits"}
+        d = Document(xml)
+        res = d.root.xpath(rng.choice(["//*", "//a | //b", "//b/* | //a", "//*[@x]"]))
+        first = list(res.in_document_order())
+        with altered_default_filters():
+            tags = [t for t in d.root.iterate_descendants() if isinstance(t, TagNode)]
+            movable = [t for t in tags if t.parent is not None and len(t.parent) > 1]
+            if not movable:
+                continue
+            t = rng.choice(movable)
+            parent = t.parent
+            t.detach()
+            parent.insert_children(rng.choice([0, len(parent)]), t)
+            order = {id(x): i for i, x in enumerate([d.root] + list(d.root.iterate_descendants()))}
+        again = list(res.in_document_order())
+        run.case(stream, case, len(first) > 1)
+        run.count("resorted results", min(len(first), 6))
+        want = sorted(first, key=lambda x: order[id(x)])
+        if [id(x) for x in again] != [id(x) for x in want]:
+            run.violation(stream, case, {"why": "in_document_order() of a results object is not the document order after the tree was rearranged",
+                                         "moved": str(t)[:60]})
+
+
 def known(case, doc_xml, out):
     expr = case["expr"]
     if re.search(r'@[\w:]+\s*!=', expr) or re.search(r'@[\w:]+\s*=\s*(""|\'\')', expr):
@@ -434,6 +465,7 @@ def check(run: Run, lean: dict) -> int:
     run_cases(run, corpus(), "corpus", ok)
     run_cases(run, [gen_case(run.rng) for _ in range(n)], "generated", ok)
     css_cases(run, "css", n // 10)
+    results_after_edits(run, "results after edits", 150)
     return run.finish(lean, LEVEL, ASSUME, search=search)
 
 
